@@ -66,7 +66,7 @@ func (b *Block) Key() string {
 
 func (b *Block) QName() string { return b.PkgName + "." + b.Key() }
 
-var clauseKW = []string{"requires", "ensures", "loop", "split", "opaque", "prop", "decreases", "modifies", "assume", "inline", "nooverlay", "unsafe-ok", "havoc", "using", "trusted", "known", "reveal", "forall", "use", "inline", "witness"}
+var clauseKW = []string{"requires", "ensures", "loop", "split", "opaque", "prop", "decreases", "modifies", "assume", "inline", "nooverlay", "unsafe-ok", "havoc", "using", "trusted", "known", "reveal", "forall", "use", "inline", "witness", "return"}
 var blockKW = []string{"opaque spec func", "abstract func", "spec func", "lemma", "axiom", "assume func", "func", "assume-dep", "iface", "ghost"}
 
 func startsWithKW(s string, kws []string) string {
@@ -187,7 +187,7 @@ func ParseContractFile(path, pkgPath string) ([]*Block, error) {
 			switch kw {
 			case "loop":
 				// loop K: invariant E | unroll N | decreases E
-				m := regexp.MustCompile(`^(\d+)\s*:\s*(invariant|unroll|decreases|havoc|use)\s*(.*)$`).FindStringSubmatch(rest)
+				m := regexp.MustCompile(`^(\d+)\s*:\s*(invariant|unroll|decreases|havoc|use|rangevar)\s*(.*)$`).FindStringSubmatch(rest)
 				if m == nil {
 					return nil, fmt.Errorf("%s:%d: bad loop clause %q", path, ln, rest)
 				}
@@ -203,6 +203,15 @@ func ParseContractFile(path, pkgPath string) ([]*Block, error) {
 					return nil, fmt.Errorf("%s:%d: forall clause wants 'name Type'", path, ln)
 				}
 				cur.Ghosts = append(cur.Ghosts, [2]string{f[0], f[1]})
+			case "return":
+				// return use lemma(args): a lemma instance over the locals at every return
+				if !strings.HasPrefix(rest, "use ") {
+					return nil, fmt.Errorf("%s:%d: return clause wants 'return use lemma(args)'", path, ln)
+				}
+				curClause.Kind = "use"
+				curClause.Text = strings.TrimSpace(strings.TrimPrefix(rest, "use "))
+				curClause.IsLoop = true
+				curClause.Loop = -2
 			case "witness":
 				// witness name Type = expr
 				eq := strings.Index(rest, "=")
